@@ -36,7 +36,7 @@ units.vspec:
 """
 import re
 
-FN_KEYS = {'tags', 'returns', 'requires', 'ensures', 'decreases', 'unwind', 'dassert', 'paramtype', 'generics', 'where',
+FN_KEYS = {'implraw', 'tags', 'returns', 'requires', 'ensures', 'decreases', 'unwind', 'dassert', 'paramtype', 'generics', 'where',
            'attr', 'loop', 'proof', 'rename', 'opt', 'recommends', 'site', 'lift', 'template', 'subst', 'selfname', 'paramrename', 'rettype', 'implgenerics', 'nounwind', 'via'}
 LOOP_KEYS = {'invariant', 'invariant_except_break', 'ensures', 'decreases'}
 
@@ -101,6 +101,7 @@ class FnSpec:
         self.implgenerics = None
         self.via = None
         self.renames = {}
+        self.implraw = []
 
     @property
     def path(self):
@@ -125,6 +126,7 @@ class ItemSpec:
         self.src = src
         self.ghost = []   # (field, type, init)
         self.opts = {}
+        self.rawlines = []
 
 
 class ModuleSpec:
@@ -229,7 +231,7 @@ def parse_vspec(path, modules):
                     err('raw without end', i)
                 cur_mod.raw.append((buf, (path, i + 2), rest.strip()))
                 i = j + 1
-            elif key in ('struct', 'enum', 'const', 'type'):
+            elif key in ('struct', 'enum', 'const', 'type', 'trait'):
                 if cur_mod is None:
                     err('item outside module', i)
                 cur_item = ItemSpec(key, rest.strip(), (path, i + 1))
@@ -255,6 +257,8 @@ def parse_vspec(path, modules):
             elif w[0] == 'opt':
                 k, v = (w[1].split(None, 1) + [''])[:2]
                 cur_item.opts[k] = v
+            elif w[0] == 'raw':
+                cur_item.rawlines.append(w[1] if len(w) > 1 else '')
             else:
                 err('unknown item clause %r' % w[0], i)
             i += 1
@@ -308,6 +312,9 @@ def parse_vspec(path, modules):
                 i += 1
             elif key == 'attr':
                 cur_fn.attrs.append(rest.strip())
+                i += 1
+            elif key == 'implraw':
+                cur_fn.implraw.append(rest)
                 i += 1
             elif key == 'paramrename':
                 k, v = rest.split('=>')
